@@ -157,6 +157,78 @@ macro_rules! affine_mod {
                 }
             }
 
+            /// Triangular / Pert under a general affine map of the support (min, max and the mode or mean mapped with
+            /// it): on one stream the mapped member must return the affine image of the canonical sample up to the
+            /// rounding of the mapped parameters. A single acceptance decision may legitimately flip on a rounding
+            /// boundary, so isolated mismatches are counted as flips; a mismatch *rate* above 1 % of the streams of
+            /// one (base, map) pair is a violation (a different algorithm / stream use shows on every stream).
+            fn pair_general(fam: &str, p0: &[f64], loc: f64, scale: f64, strm: &[(u64, u64, u64)], t: &mut Tally, g: &mut (u64, u64, f64), profile: &str) {
+                let r = |x: f64| (x as F) as f64;
+                let mut p1 = p0.to_vec();
+                for v in p1.iter_mut().take(3) {
+                    *v = r(r(scale) * *v + r(loc));
+                }
+                let (d0, d1) = match (fm::build(fam, p0), fm::build(fam, &p1)) {
+                    (Ok(a), Ok(b)) => (a, b),
+                    (Ok(_), Err(e)) => {
+                        t.nviol += 1;
+                        emit(&json!({"ev": "viol", "fam": fam, "ty": $tyname, "kind": "image_rejected", "p0": p0, "p1": p1, "map": format!("General({loc}, {scale})"),
+                            "msg": format!("constructor rejects the affine image of an accepted parameter set: {e}"), "profile": profile}));
+                        return;
+                    }
+                    _ => return,
+                };
+                let (a0, b0, a1, b1) = (p0[0], p0[1], p1[0], p1[1]);
+                // the samplers subtract nearly equal quantities next to the ends of the support (range - f*range): the
+                // rounding of the mapped parameters is amplified to ~sqrt(eps) of the range there
+                let tol_rel = 4.0 * (F::EPSILON as f64).sqrt();
+                let (mut n, mut mism, mut first): (u64, u64, Option<Value>) = (0, 0, None);
+                // lattice streams share their other words (two base seeds), so one knife-edge decision shows on dozens of
+                // them at once: they are judged at a 10 % rate, the independent random streams at 1 %
+                let (mut n_rand, mut mism_rand) = (0u64, 0u64);
+                for &(seed, pos, word) in strm {
+                    let mut r0 = Mon::new(Scripted::new(seed, pos, word)).budget(100_000);
+                    let mut r1 = Mon::new(Scripted::new(seed, pos, word)).budget(100_000);
+                    for call in 0..4u64 {
+                        tick();
+                        let (x0, x1) = match guarded(|| (d0.sample(&mut r0), d1.sample(&mut r1))) {
+                            Caught::Ok(v) => v,
+                            _ => break,
+                        };
+                        t.pairs += 1;
+                        n += 1;
+                        n_rand += (pos == u64::MAX) as u64;
+                        let want = a1 + (b1 - a1) * ((x0 as f64 - a0) / (b0 - a0));
+                        let e = (x1 as f64 - want).abs();
+                        let bound = tol_rel * (b1 - a1).abs() + 4.0 * ulp(x1);
+                        let words_differ = r0.count != r1.count;
+                        if !words_differ {
+                            g.2 = g.2.max(e / bound);
+                        }
+                        if words_differ || !(e <= bound) {
+                            mism += 1;
+                            mism_rand += (pos == u64::MAX) as u64;
+                            if first.is_none() {
+                                first = Some(json!({"stream": {"seed": seed, "pos": pos, "word": hex64(word), "call": call}, "x0": x0 as f64, "x1": x1 as f64, "image": want, "words": [r0.count, r1.count]}));
+                            }
+                            break; // the streams are desynchronised or the next decision is already perturbed
+                        }
+                        if r0.inner.idx > pos && pos != u64::MAX {
+                            break;
+                        }
+                    }
+                }
+                g.0 += n;
+                let (n_lat, mism_lat) = (n - n_rand, mism - mism_rand);
+                if (mism_rand >= 3 && mism_rand * 100 > n_rand) || (mism_lat >= 10 && mism_lat * 10 > n_lat) {
+                    t.nviol += 1;
+                    emit(&json!({"ev": "viol", "fam": fam, "ty": $tyname, "kind": "affine_map", "p0": p0, "p1": p1, "map": format!("General({loc}, {scale})"),
+                        "msg": format!("{mism_rand} of {n_rand} paired calls on random streams and {mism_lat} of {n_lat} on lattice streams are not the affine image of the canonical sample (or consume a different number of words)"), "first": first, "profile": profile}));
+                } else {
+                    g.1 += mism;
+                }
+            }
+
             pub fn run(vseed: u64, n_random: u64, positions: u64, n_maps: usize, profile: &str) {
                 let strm = streams(vseed, n_random, positions);
                 let big: f64 = if IS32 { 1e30 } else { 1e300 };
@@ -164,7 +236,9 @@ macro_rules! affine_mod {
                 let r = |x: f64| (x as F) as f64;
                 let mut rng = Xo::new(mix(&[vseed, 0x707]));
                 // finite (loc, scale) pairs in E: fixed extremes + random
-                let mut ls: Vec<(f64, f64)> = vec![(0.0, 1.0), (1.0, 1.0), (0.0, 2.0), (10.0, 10.0), (-3.5, 1e-3), (1e6, 1.0), (big / 1e3, big / 1e25), (0.0, tiny), (5.0, 1e3), (-7.25, 0.1), (1.0, 3.0)];
+                let mut ls: Vec<(f64, f64)> = vec![(0.0, 1.0), (1.0, 1.0), (0.0, 2.0), (10.0, 10.0), (-3.5, 1e-3), (1e6, 1.0), (big / 1e3, big / 1e25), (0.0, tiny), (5.0, 1e3), (-7.25, 0.1), (1.0, 3.0),
+                    // the largest scales of E: the image may overflow to inf (then only the word counts are compared)
+                    (0.0, big), (1.0, big / 1e4)];
                 for _ in 0..n_maps {
                     let l = (rng.unit() * 2.0 - 1.0) * 10f64.powf(rng.unit() * 12.0 - 6.0);
                     let s = 10f64.powf(rng.unit() * 12.0 - 6.0);
@@ -201,7 +275,7 @@ macro_rules! affine_mod {
                     }
                 });
                 fam_run!("frechet", |t: &mut Tally| {
-                    for &al in &[0.5, 1.0, 3.0, 50.0] {
+                    for &al in &[0.2, 0.5, 1.0, 3.0, 50.0] {
                         for &(l, s) in &ls {
                             pair("frechet", &[0.0, 1.0, al], &[l, s, al], aff(l, s), &strm, t, profile);
                         }
@@ -282,6 +356,38 @@ macro_rules! affine_mod {
                         }
                     }
                 });
+                // general (non power-of-two) maps of the support, mode / mean at min, inside and at max, shapes that are
+                // not powers of two; maps chosen so that the mapped parameters carry at most one rounding each
+                let gmaps: [(f64, f64); 10] = [(0.0, 3.0), (0.0, 7.0), (0.0, 13.0 / 7.0), (0.0, 1.0 / 3.0), (0.0, 0.1), (0.0, 1e-5 / 3.0), (0.0, 1e7 / 7.0), (1.0, 3.0), (-2.0, 1.5), (0.5, 0.75)];
+                let mut gstat = (0u64, 0u64, 0f64);
+                fam_run!("triangular_general", |t: &mut Tally| {
+                    for &(a, b, c) in &[(0.0, 1.0, 0.5), (0.0, 1.0, 0.0), (0.0, 1.0, 1.0), (0.0, 1.0, 0.125), (0.25, 0.75, 0.375), (-1.0, 1.0, 0.5)] {
+                        for &(l, s) in &gmaps {
+                            pair_general("triangular", &[a, b, c], l, s, &strm, t, &mut gstat, profile);
+                        }
+                    }
+                });
+                fam_run!("pert_general", |t: &mut Tally| {
+                    for &sh in &[4.0, 3.0, 7.0, 0.5, 3.3, 6.3, 2.7] {
+                        for &(a, b, c) in &[(0.0, 1.0, 0.5), (0.0, 1.0, 0.0), (0.0, 1.0, 1.0), (0.0, 1.0, 0.125), (0.25, 0.75, 0.375), (-1.0, 1.0, 1.0)] {
+                            for &(l, s) in &gmaps {
+                                pair_general("pert", &[a, b, c, sh], l, s, &strm, t, &mut gstat, profile);
+                            }
+                        }
+                    }
+                });
+                fam_run!("pert_mean_general", |t: &mut Tally| {
+                    for &sh in &[4.0, 3.0, 1.0, 6.3] {
+                        // (a symmetric base is left out: with v == w exactly, one rounding in the recovered mode swaps the roles of
+                        // the two Beta parameters and mirrors every sample — the same law, not the same stream image)
+                        for &(a, b, m) in &[(0.0, 1.0, 0.375), (0.0, 1.0, 0.625), (0.25, 0.75, 0.4375), (-1.0, 1.0, 0.125)] {
+                            for &(l, s) in &gmaps {
+                                pair_general("pert_mean", &[a, b, m, sh], l, s, &strm, t, &mut gstat, profile);
+                            }
+                        }
+                    }
+                });
+                emit(&json!({"ev": "c07_general", "ty": $tyname, "pairs": gstat.0, "isolated_flips": gstat.1, "max_error_over_bound": gstat.2, "profile": profile}));
                 // LogNormal: affine in log space == from_zscore of the standard normal drawn from the clone
                 fam_run!("log_normal", |t: &mut Tally| {
                     // both signs of sigma (a negative std_dev is documented as allowed and must act as such)
